@@ -82,7 +82,7 @@ func init() {
 			name += fmt.Sprintf("-slowlink%d", c.hold)
 		}
 		harn.Register(harn.Scenario{Property: "C13", Name: name, Run: func(ctx *harn.Ctx) *harn.Result {
-			return harn.Explore(ctx, harn.Sched{QuickBound: 1, ThoroughBound: 2, Preempt: false, Cache: true, Body: netBody(netOpts{skipA: c.skipA, skipB: c.skipB}, func(nw *NetWorld) {
+			return harn.Explore(ctx, harn.Sched{QuickBound: 1, ThoroughBound: 2, Preempt: false, Cache: true, Body: netBody(netOpts{skipA: c.skipA, skipB: c.skipB, samePids: true}, func(nw *NetWorld) {
 				var errs []string
 				spid := seqSender(nw.a, "S", &errs)
 				rpid := nw.b.spawnProbe("R", probeCfg{}, gen.ProcessOptions{})
@@ -438,7 +438,7 @@ func recordFrames(msgs []string) [][]byte {
 		return f
 	}
 	var frames [][]byte
-	vsched.RunOnce(10, netBody(netOpts{}, func(nw *NetWorld) {
+	vsched.RunOnce(10, netBody(netOpts{samePids: true}, func(nw *NetWorld) { // the frames are replayed to a stand-alone node whose receiver is its first process
 		var errs []string
 		spid := seqSender(nw.a, "S", &errs)
 		rpid := nw.b.spawnProbe("R", probeCfg{}, gen.ProcessOptions{})
